@@ -11,6 +11,7 @@ A trace rejected by ParserCursorTrace while the tree laws hold is `binding_drift
 """
 import json
 import os
+import time
 
 import parser_common as pc
 from lib import Check, ToolError, build_harness, clean_dir, log, workdir
@@ -46,7 +47,8 @@ def report_laws(chk, problems):
 def main(tier, replay=None):
     chk = Check("C10", tier)
     build_harness(["parse_trace"])
-    wd = workdir("parser", "c10")
+    tag = "c10" + pc.WTAG
+    wd = workdir("parser", tag)
     if replay:
         inp = os.path.join(wd, "replay_in.ndjson")
         pc.replay_inputs(replay, inp)
@@ -58,11 +60,13 @@ def main(tier, replay=None):
         return chk.finish({"states": 1, "transitions": 1})
 
     # 1. design: exhaustive model check of the cursor protocol, BUG variants must be caught
-    design = pc.design_check(chk, tier, "c10")
+    t0 = time.time()
+    design = pc.design_check(chk, tier, tag)
+    t_design = time.time() - t0
 
     # 2. input space: LexModel (all class strings / token soups), corpus mutants, nesting probes
     inputs = os.path.join(wd, "inputs.ndjson")
-    n_lex, per_cfg = pc.gen_lexmodel(chk, pc.LEX_CFGS[tier], "c10", inputs)
+    n_lex, per_cfg = pc.gen_lexmodel(chk, pc.LEX_CFGS[tier], tag, inputs)
     n_mut = 4000 if tier == "quick" else 60000
     mut = os.path.join(wd, "mutants.ndjson")
     info = pc.gen_texts("gen-mutants", mut, n_lex + 1, [str(n_mut), "--cap", str(pc.NEST_CAP)])
@@ -77,12 +81,16 @@ def main(tier, replay=None):
                     g.write(line)
             os.remove(p)
     n_inputs = n_lex + info["mutants"] + cinfo["corpus"] + ninfo["probes"]
+    t_gen = time.time() - t0 - t_design
     log(f"[C10] inputs: {n_lex} LexModel + {info['mutants']} corpus mutants (corpus {info['corpus']} texts) + "
         f"{cinfo['corpus']} corpus originals + {ninfo['probes']} nesting probes")
 
     # 3. real lexer / parser / tree walk on every input; tree laws are the alarm criterion
     out = clean_dir(os.path.join(wd, "out"))
-    summary, problems = pc.run_harness(inputs, out, mode="parse", trace_max=40 if tier == "quick" else 48)
+    # self-test of the binding (C10_SELFTEST=corrupt): one recorded leaf width of every trace is corrupted
+    corrupt = 1 if os.environ.get("C10_SELFTEST") == "corrupt" else 0
+    summary, problems = pc.run_harness(inputs, out, mode="parse", trace_max=40 if tier == "quick" else 48, corrupt=corrupt)
+    t_harness = time.time() - t0 - t_design - t_gen
     log(f"[C10] harness: {json.dumps({k: summary[k] for k in ('inputs', 'parsed', 'nodes', 'leaves', 'with_skipped_token', 'with_skipped_node', 'with_missing', 'distinct_traces', 'wall_ms')})}")
     if summary["inputs"] + len([p for p in problems if p["kind"] == "crash"]) < n_inputs:
         raise ToolError(f"harness processed {summary['inputs']} of {n_inputs} inputs")
@@ -101,8 +109,8 @@ def main(tier, replay=None):
             log(f"[C10] binding_drift (diagnostic) {p['kind']}: {p['detail']} on {p['text'][:60]!r}")
 
     # 4. V: ParserCursorTrace accepts the recorded (lexer terminals, tree leaves) traces
-    limit = 40000 if tier == "quick" else 600000
-    tv = pc.validate_traces(chk, os.path.join(out, "traces.ndjson"), "c10", shards=8, limit=limit)
+    limit = 24000 if tier == "quick" else 300000
+    tv = pc.validate_traces(chk, os.path.join(out, "traces.ndjson"), tag, shards=8, limit=limit)
     rejected = tv["rejected"]
     rej_law = [s for s in rejected if tv["idmap"][s] in law_ids]
     rej_drift = [s for s in rejected if tv["idmap"][s] not in law_ids]
@@ -115,6 +123,8 @@ def main(tier, replay=None):
             log(f"[C10] binding_drift (diagnostic): trace {s} (input {tv['idmap'][s]}) rejected; events: {json.dumps(ev.get(s, []))[:1500]}")
     for (s, name) in tv["invfail"][:5]:
         log(f"[C10] model invariant {name} failed while explaining trace {s} (input {tv['idmap'].get(s)}) - diagnostic")
+    t_trace = time.time() - t0 - t_design - t_gen - t_harness
+    log(f"[C10] phases: design {t_design:.0f}s, input generation {t_gen:.0f}s, harness {t_harness:.0f}s, trace validation {t_trace:.0f}s")
     accepted_inputs = sum(tv["mult"][s] for s in tv["mult"] if s not in set(rejected))
 
     # evidence
@@ -139,7 +149,9 @@ def main(tier, replay=None):
         "tree_nodes_checked": summary["nodes"], "tree_leaves": summary["leaves"],
         "inputs_with_skipped_token": summary["with_skipped_token"], "inputs_with_skipped_node": summary["with_skipped_node"],
         "inputs_with_missing": summary["with_missing"],
-        "distinct_traces": tv["traces"], "traces_accepted": tv["accepted"], "inputs_covered_by_accepted_traces": accepted_inputs,
+        "exhaustive_scope": "design model and LexModel input spaces enumerated completely by TLC; corpus mutants are a seeded sample; "
+                            "TLC validates distinct_traces_validated of distinct_traces_recorded (stride thinning), the tree laws are checked on every input",
+        "distinct_traces_recorded": summary["distinct_traces"], "distinct_traces_validated": tv["traces"], "traces_accepted": tv["accepted"], "inputs_covered_by_accepted_traces": accepted_inputs,
         "traces_rejected_law_failing_inputs": len(rej_law), "binding_drift": len(rej_drift),
         "model_invariant_failures_on_traces": len(tv["invfail"]), "cursor_steps": tv["steps"],
         "law_failing_inputs": len(law_ids),
